@@ -377,6 +377,7 @@ type Clause struct {
 	Loop  int // for invariant/decreases
 	Cand  bool // inferred candidate (Houdini)
 	Site  string // for "at call": callee#ordinal
+	More    []SExpr // further components of a lexicographic measure
 	LoopSel string // alternative loop selector, e.g. "range:jsonConfig.IgnoreFileErr#0"
 	File  string
 	Line  int
@@ -739,11 +740,24 @@ func (cs *ContractSet) ParseContractText(pkgPath, file, text string) error {
 					cur.HitSites[m[1]] = true
 				}
 				tag, props, body := parseTags(rc.rest)
+				var more []SExpr
+				if rc.kw == "measure" {
+					// lexicographic tuple: e1, e2, ...
+					comps := splitTop(body)
+					for _, c := range comps[1:] {
+						x, err := ParseSpecExpr(c)
+						if err != nil {
+							return errf(err)
+						}
+						more = append(more, x)
+					}
+					body = comps[0]
+				}
 				e, err := ParseSpecExpr(body)
 				if err != nil {
 					return errf(err)
 				}
-				cl := &Clause{Kind: rc.kw, Tag: tag, Props: props, Src: body, Expr: e, File: file, Line: rc.line}
+				cl := &Clause{Kind: rc.kw, Tag: tag, Props: props, Src: strings.TrimSpace(rc.rest), Expr: e, More: more, File: file, Line: rc.line}
 				switch rc.kw {
 				case "requires":
 					cur.Requires = append(cur.Requires, cl)
